@@ -217,3 +217,28 @@ pub fn debug_list<T: Debug>(v: &[T]) -> String {
         format!("{:?} .. ({} entries)", &v[..12], v.len())
     }
 }
+
+
+// ---- which phase a panic belongs to (modes 5 / 18) -------------------------------------------
+thread_local! {
+    static COMPARING: std::cell::Cell<bool> = const { std::cell::Cell::new(false) };
+}
+
+/// Marks the phase in which an already built and validated model is converted, viewed, iterated or
+/// queried for diagnostics: a panic there belongs to C05 / C18, a panic in a constructor to C03.
+pub fn comparing(on: bool) {
+    COMPARING.with(|c| c.set(on));
+}
+
+pub fn is_comparing() -> bool {
+    COMPARING.with(|c| c.get())
+}
+
+/// A constructor of *another* representation called inside the comparison phase.
+pub fn other_ctor<T>(f: impl FnOnce() -> T) -> T {
+    let was = is_comparing();
+    comparing(false);
+    let r = f();
+    comparing(was);
+    r
+}
